@@ -85,9 +85,17 @@ def cvOp (j : Json) : R Json := do
   let rows ← fld j "rows" >>= asList (asList (asOpt asFloat))
   let o ← readObj j rows.length
   let folds ← fld j "folds" >>= asList (readFold o)
+  -- round 7: the input of `cvPredTrain` per fold — the RDMs the ceiling set must hold (`partData` of
+  -- the ceil part: the training RDMs restricted to the part's conditions)
+  let ceilData : List (String × Json) :=
+    match fldD j "want_ceil" Json.null with
+    | Json.bool true =>
+        [("ceil", ofList (fun f => ofList (ofList (ofOpt ofFloat)) (partData o.nC rows f.ceil))
+            (folds.take (Rsa.Gen.C07.cvLoopLen folds.length)))]
+    | _ => []
   match cvNoiseCeilingO m o rows folds with
-  | some p => pure (ofPair p)
-  | none => pure (obj [("exc", Json.str "ValueError")])
+  | some p => pure (obj ([("lower", ofFloat p.1), ("upper", ofFloat p.2)] ++ ceilData))
+  | none => pure (obj ([("exc", Json.str "ValueError")] ++ ceilData))
 
 /-- the score `boot_noise_ceiling`'s loop gives to a candidate RDM -/
 def scoreOp (j : Json) : R Json := do
